@@ -251,6 +251,24 @@ def replay_c18(case):
                      w)
         if gtags != exp_tags:
             mismatch('tagged values', exp_tags, gtags, w)
+        # function attributes BECOME tagged values (a copy): tagging the
+        # description must not write back to the function, nor show on
+        # another description of the same function
+        if via.startswith('fromFunction(f)') or via.startswith('fromMethod'):
+            before = dict(f.__dict__)
+            try:
+                d.setTaggedValue('zz_verif', 1)
+                d2 = make()
+                leaked = 'zz_verif' in d2.getTaggedValueTags()
+            except Exception as e:     # noqa
+                leaked = 'raised %r' % (e,)
+            if dict(f.__dict__) != before or leaked:
+                mismatch('tagged values are shared with the function',
+                         {'function attributes': sorted(before),
+                          'second description has the tag': False},
+                         {'function attributes': sorted(f.__dict__),
+                          'second description has the tag': leaked}, w)
+                f.__dict__.pop('zz_verif', None)
         if via == 'interface definition':
             try:
                 text = asStructuredText(ns['I'])
